@@ -29,7 +29,11 @@ type c16Case struct {
 	Window   int       `json:"window"`
 	N        int       `json:"n"`
 	ReadFrom bool      `json:"readfrom"`
-	Sched    []c16Item `json:"sched"`
+	// Mixed: the receiver takes the first 5 bytes of a payload with Read, then calls ReadFrom (which
+	// returns the next acceptable datagram, forgeries arriving meanwhile), then collects the rest of
+	// the first payload with Read
+	Mixed bool      `json:"mixed,omitempty"`
+	Sched []c16Item `json:"sched"`
 }
 
 func c16Payload(i int) []byte { return []byte(fmt.Sprintf("payload-%04d", i)) }
@@ -102,7 +106,47 @@ func c16Deliver(c c16Case, withForgeries bool) (got [][]byte, seqs []uint64, fir
 	}
 	opt.SrvAct = func(cn *Conn) error {
 		buf := make([]byte, 200)
-		for i := 0; i < 10*c.N+50; i++ {
+		timeout := func(err error) bool {
+			te, ok := err.(interface{ Timeout() bool })
+			return ok && te.Timeout()
+		}
+		for i := 0; c.Mixed && i < 10*c.N+50; i++ {
+			cn.SetReadDeadline(time.Now().Add(time.Second))
+			head := make([]byte, 5)
+			n1, err := cn.Read(head)
+			if err != nil {
+				if !timeout(err) {
+					firstErr = err
+				}
+				return nil
+			}
+			cn.SetReadDeadline(time.Now().Add(time.Second))
+			n2, _, err2 := cn.ReadFrom(buf)
+			var other []byte
+			if err2 == nil {
+				other = append([]byte(nil), buf[:n2]...)
+			} else if !timeout(err2) {
+				firstErr = err2
+				return nil
+			}
+			cn.SetReadDeadline(time.Now().Add(time.Second))
+			tail := make([]byte, 200)
+			n3, err3 := cn.Read(tail)
+			if err3 != nil {
+				if !timeout(err3) {
+					firstErr = err3
+				}
+				return nil
+			}
+			got = append(got, append(append([]byte(nil), head[:n1]...), tail[:n3]...))
+			if other != nil {
+				got = append(got, other)
+			}
+			if err2 != nil {
+				return nil
+			}
+		}
+		for i := 0; !c.Mixed && i < 10*c.N+50; i++ {
 			cn.SetReadDeadline(time.Now().Add(time.Second))
 			var n int
 			var err error
@@ -221,10 +265,10 @@ func c16Check(c c16Case) (sig, msg string, nontrivial bool) {
 }
 
 func TestVF_C16_Conn(t *testing.T) {
-	rec := vfRec("C16", "C16b-connection", "established connection; the sender emits N unique payloads which the harness holds back and then delivers according to a generated schedule of originals, duplicates, late replays, reorderings, body bit flips, altered epoch / sequence headers, records sealed under the wrong direction's key and garbage records; receiver through ReadFrom and through Read; window sizes 0 (default), 32, 64, 128; both cipher modes; oracle: delivered subset of sent, at most once, forgeries never delivered, fresh genuine records within the guaranteed window delivered, same deliveries with and without the forgeries; non-trivial = schedule with a duplicate, a replay or a forgery; distinct = the case")
+	rec := vfRec("C16", "C16b-connection", "established connection; the sender emits N unique payloads which the harness holds back and then delivers according to a generated schedule of originals, duplicates, late replays, reorderings, body bit flips, altered epoch / sequence headers, records sealed under the wrong direction's key and garbage records; receiver through ReadFrom, through Read, and mixed (short Read, ReadFrom, rest through Read); window sizes 0 (default), 32, 64, 128; both cipher modes; oracle: delivered subset of sent, at most once, forgeries never delivered, fresh genuine records within the guaranteed window delivered, same deliveries with and without the forgeries; non-trivial = schedule with a duplicate, a replay or a forgery; distinct = the case")
 	vfRapid(t, rec, "schedules", vfN(300, 6000), func(t *rapid.T) {
 		c := c16Case{Suite: rapid.SampledFrom([]uint16{ECC_SM4_GCM_SM3, ECC_SM4_CBC_SM3}).Draw(t, "suite"), Window: rapid.SampledFrom([]int{0, 32, 64, 128}).Draw(t, "window"),
-			N: rapid.SampledFrom([]int{3, 8, 40, 100}).Draw(t, "n"), ReadFrom: rapid.Bool().Draw(t, "readfrom")}
+			N: rapid.SampledFrom([]int{3, 8, 40, 100}).Draw(t, "n"), ReadFrom: rapid.Bool().Draw(t, "readfrom"), Mixed: rapid.IntRange(0, 3).Draw(t, "mixed") == 0}
 		n := rapid.IntRange(1, 2*c.N+4).Draw(t, "len")
 		cursor := 0
 		for i := 0; i < n; i++ {
@@ -257,6 +301,9 @@ func TestVF_C16_Conn(t *testing.T) {
 		api := "Read"
 		if c.ReadFrom {
 			api = "ReadFrom"
+		}
+		if c.Mixed {
+			api = "mixed"
 		}
 		rec.EvalHash(nt, vfHash(c), func() interface{} {
 			s := c
